@@ -534,6 +534,22 @@ theorem linkWF_processHeader (r : Repo) (h : Hdr) (ok : Bool) (hw : LinkWF r.are
     · simp only [hf, ↓reduceIte]
       exact linkWF_extendHeader r h pb ph lst hw hpass.lastIs (by simpa using hf) (hnc pb ph lst hpc)
 
+theorem addToBranch_height (r : Repo) (h : Hdr) (pb : Nat) (ph : Int) (lst : HData) (w : Nat)
+    (hl : r.lastOf pb = some lst) :
+    ((addToBranch r h pb ph lst w).br pb).height = (r.br pb).height + 1 := by
+  have hlen : pb < r.arena.length := by
+    unfold Repo.lastOf Repo.br Branch.last? at hl
+    by_cases hc : pb < r.arena.length
+    · exact hc
+    · rw [List.getElem?_eq_none (by omega)] at hl
+      simp only [Option.getD_none] at hl
+      cases hl
+  unfold addToBranch Repo.br Repo.setBranch Branch.height
+  simp only [List.getElem?_set_self hlen, Option.getD_some, List.length_append, List.length_cons, List.length_nil]
+  rw [List.getElem?_eq_getElem hlen]
+  simp only [Option.getD_some]
+  omega
+
 /-! ### submission histories -/
 
 /-- a history of submissions: each header with the outcome of its hash-vs-target comparison. -/
